@@ -1,15 +1,18 @@
 /-
-  Proofs.C18Agg — the aggregation pipeline as a path of C18 (follows the repair d1da933:
-  `Collection.aggregate` normalises the pipeline it is given, `MongoModel.aggPipeline`).
+  Proofs.C18Agg — the aggregation pipeline as a path of C18 (follows the repairs d1da933 and
+  e05c961: `Collection.aggregate` normalises the pipeline it is given (`MongoModel.aggPipeline`),
+  runs it over the documents as stored (`aggInput`), and under `tz_aware=True` rebuilds its results
+  aware at the end (`aggResult`)).
 
-    * the form of a datetime written in a pipeline is the form the collection's own documents are
-      read in (`ReadForm tz`), at every depth;
+    * inside the pipeline every datetime that is stored, fetched or written is naive with whole
+      milliseconds, and any two naive datetimes — a computed one included — compare without error
+      (`Expr.compareOp`, the model of aggregate.py's comparison operators), by their instants;
+    * `tz_aware` changes nothing but the form of the results: the aggregation of a `tz_aware=True`
+      client is `makeAware` of the one a `tz_aware=False` client gets, document by document;
+    * every datetime of a result of a `tz_aware=True` client is aware UTC, whatever computed it;
+      a normal one comes out in the read form of the client with its instant;
     * two pipelines that differ only in how their datetimes are written are the same pipeline once
-      prepared — so every stage, at every position, answers the same;
-    * an expression comparison between a stored field and a written datetime is the comparison of
-      their milliseconds, under both `tz_aware` settings (`Expr.compareOp`, the model of
-      aggregate.py's comparison operators);
-    * the `$match` stage selects the same documents under both settings.
+      prepared — so every stage, at every position, answers the same.
 -/
 import Proofs.C18Filter
 import MongoModel.ExprOps
@@ -99,81 +102,114 @@ theorem shape_readDoc (tz : Bool) (v : Val) : shape (readDoc tz v) = shape v := 
 
 /-! ### the prepared pipeline -/
 
-/-- a datetime written in a pipeline is handed on exactly as a stored copy of it would be read -/
-theorem aggPipeline_eq_readDoc (tz : Bool) (p : Val) : aggPipeline tz p = readDoc tz (patch p) := by
-  cases tz <;> rfl
+theorem aggPipeline_normal (p : Val) : AllDates Normal (aggPipeline p) := patch_normal p
 
-theorem aggPipeline_form (tz : Bool) (p : Val) : AllDates (ReadForm tz) (aggPipeline tz p) := by
-  rw [aggPipeline_eq_readDoc]
-  exact readDoc_form tz _ (patch_normal p)
+/-- a datetime written in a pipeline meets the stored ones in their own form: the stored form of
+    the value written -/
+theorem aggPipeline_eq_stored (p : Val) : aggPipeline p = aggInput (patch p) := rfl
 
 /-- normalising the prepared pipeline (what `$match` does to its filter, what `$out` does when it
-    inserts) gives the normal form of the pipeline as written -/
-theorem patch_aggPipeline (tz : Bool) (p : Val) : patch (aggPipeline tz p) = patch p := by
-  rw [aggPipeline_eq_readDoc]
-  exact patch_readDoc tz _ (patch_normal p)
+    inserts) changes nothing -/
+theorem patch_aggPipeline (p : Val) : patch (aggPipeline p) = patch p := patch_idem p
 
-/-- preparing a prepared pipeline changes nothing (a result of one aggregation written into the
-    pipeline of the next one) -/
-theorem aggPipeline_idem (tz : Bool) (p : Val) :
-    aggPipeline tz (aggPipeline tz p) = aggPipeline tz p := by
-  rw [aggPipeline_eq_readDoc tz (aggPipeline tz p), patch_aggPipeline, aggPipeline_eq_readDoc]
+theorem aggPipeline_idem (p : Val) : aggPipeline (aggPipeline p) = aggPipeline p := patch_idem p
 
-/-- two pipelines are prepared to the same value iff they have the same shape and, position by
-    position, their datetimes denote the same milliseconds -/
-theorem aggPipeline_eq_iff_sameMs (tz : Bool) (p q : Val) :
-    aggPipeline tz p = aggPipeline tz q ↔ SameMs p q := by
-  constructor
-  · intro h
-    have := congrArg patch h
-    rw [patch_aggPipeline, patch_aggPipeline] at this
-    exact (patch_eq_iff_sameMs p q).1 this
-  · intro h
-    rw [aggPipeline_eq_readDoc, aggPipeline_eq_readDoc, patch_eq_of_sameMs p q h]
+theorem aggPipeline_eq_iff_sameMs (p q : Val) : aggPipeline p = aggPipeline q ↔ SameMs p q :=
+  patch_eq_iff_sameMs p q
 
-theorem shape_aggPipeline (tz : Bool) (p : Val) : shape (aggPipeline tz p) = shape p := by
-  rw [aggPipeline_eq_readDoc, shape_readDoc, shape_patch]
+theorem shape_aggPipeline (p : Val) : shape (aggPipeline p) = shape p := shape_patch p
 
-/-- the datetimes of the prepared pipeline, in position: the millisecond floor of the instant
-    written, naive or aware UTC according to the client -/
-theorem datesOf_aggPipeline (tz : Bool) (p : Val) :
-    datesOf (aggPipeline tz p)
-      = (datesOf p).map (fun d => (floorMs (dateUtc d.1 d.2), if tz then some 0 else none)) := by
-  cases tz
-  · simpa [aggPipeline] using datesOf_patch p
-  · simp only [aggPipeline, if_true, datesOf_makeAware, datesOf_patch, List.map_map]
-    rfl
+theorem datesOf_aggPipeline (p : Val) :
+    datesOf (aggPipeline p) = (datesOf p).map (fun d => (floorMs (dateUtc d.1 d.2), none)) :=
+  datesOf_patch p
 
-/-- at every depth -/
-theorem getByDotParts_aggPipeline (tz : Bool) (ps : List String) (p : Val) :
-    getByDotParts ps (aggPipeline tz p) = (getByDotParts ps p).map (aggPipeline tz) := by
-  cases tz
-  · have : aggPipeline false = patch := rfl
-    rw [this]
-    exact getByDotParts_patch ps p
-  · have : aggPipeline true = fun v => makeAware (patch v) := rfl
-    rw [this, getByDotParts_makeAware, getByDotParts_patch]
-    cases getByDotParts ps p <;> rfl
+theorem getByDotParts_aggPipeline (ps : List String) (p : Val) :
+    getByDotParts ps (aggPipeline p) = (getByDotParts ps p).map aggPipeline :=
+  getByDotParts_patch ps p
 
-theorem aggPipeline_depth (tz : Bool) (ps : List String) (p : Val) (u : Int) (o : Option Int)
+theorem aggPipeline_depth (ps : List String) (p : Val) (u : Int) (o : Option Int)
     (h : getByDotParts ps p = .ok (.date u o)) :
-    getByDotParts ps (aggPipeline tz p)
-      = .ok (.date (floorMs (dateUtc u o)) (if tz then some 0 else none)) := by
-  rw [getByDotParts_aggPipeline, h]
+    getByDotParts ps (aggPipeline p) = .ok (.date (floorMs (dateUtc u o)) none) :=
+  patch_depth ps p u o h
+
+/-! ### the results -/
+
+theorem aggResult_eq_readDoc (tz : Bool) (r : Val) : aggResult tz r = readDoc tz r := rfl
+
+/-- `tz_aware=True`: every datetime of a result, at any depth, is aware UTC — whatever the pipeline
+    did to produce it (read, fetched, written, computed) -/
+theorem aggResult_aware (r : Val) : AllDates AwareUtc (aggResult true r) := makeAware_utc r
+
+/-- `tz_aware=False`: results are handed out as computed -/
+theorem aggResult_false (r : Val) : aggResult false r = r := rfl
+
+/-- a value with normal datetimes comes out in the read form of the client -/
+theorem aggResult_form (tz : Bool) (r : Val) (h : AllDates Normal r) :
+    AllDates (ReadForm tz) (aggResult tz r) :=
+  readDoc_form tz r h
+
+/-- nothing is lost: normalising the result gives the value the pipeline computed -/
+theorem patch_aggResult (tz : Bool) (r : Val) (h : AllDates Normal r) : patch (aggResult tz r) = r :=
+  patch_readDoc tz r h
+
+theorem shape_aggResult (tz : Bool) (r : Val) : shape (aggResult tz r) = shape r :=
+  shape_readDoc tz r
+
+/-- wall clocks are kept, position by position; a naive datetime becomes aware UTC under
+    `tz_aware=True` -/
+theorem datesOf_aggResult (tz : Bool) (r : Val) (h : AllDates Naive r) :
+    datesOf (aggResult tz r) = (datesOf r).map (fun d => (d.1, if tz then some 0 else none)) := by
+  cases tz
+  · simp only [aggResult, Bool.false_eq_true, if_false]
+    have : ∀ d ∈ datesOf r, (fun d : Int × Option Int => (d.1, (none : Option Int))) d = d := by
+      intro d hd
+      have hn : d.2 = none := (allDates_iff_dates Naive r).1 h d hd
+      obtain ⟨u, o⟩ := d
+      simp only at hn
+      subst hn
+      rfl
+    rw [List.map_congr_left this, List.map_id']
+  · simp only [aggResult, if_true]
+    exact datesOf_makeAware r
+
+/-- so the instants are those the pipeline computed -/
+theorem aggResult_same_instant (tz : Bool) (r : Val) (h : AllDates Naive r) :
+    (datesOf (aggResult tz r)).map (fun d => dateUtc d.1 d.2)
+      = (datesOf r).map (fun d => dateUtc d.1 d.2) := by
+  cases tz
+  · rfl
+  · exact makeAware_same_instant r h
+
+theorem getByDotParts_aggResult (tz : Bool) (ps : List String) (r : Val) :
+    getByDotParts ps (aggResult tz r) = (getByDotParts ps r).map (aggResult tz) := by
+  cases tz
+  · have : aggResult false = id := rfl
+    rw [this]
+    cases h : getByDotParts ps r <;> simp [h, Except.map]
+  · have : aggResult true = makeAware := rfl
+    rw [this]
+    exact getByDotParts_makeAware ps r
+
+/-- at every depth of a result: a naive datetime the pipeline put there comes out with the same
+    wall clock, aware UTC under `tz_aware=True` -/
+theorem aggResult_depth (tz : Bool) (ps : List String) (r : Val) (u : Int)
+    (h : getByDotParts ps r = .ok (.date u none)) :
+    getByDotParts ps (aggResult tz r) = .ok (.date u (if tz then some 0 else none)) := by
+  rw [getByDotParts_aggResult, h]
   cases tz <;> rfl
 
-/-- the prepared form of one datetime -/
-theorem aggPipeline_date (tz : Bool) (u : Int) (o : Option Int) :
-    aggPipeline tz (.date u o) = .date (floorMs (dateUtc u o)) (if tz then some 0 else none) := by
-  cases tz <;> rfl
+/-- a written datetime that a pipeline passes on untouched comes out exactly as a stored copy of
+    it is read by this client -/
+theorem aggResult_aggPipeline (tz : Bool) (p : Val) :
+    aggResult tz (aggPipeline p) = readDoc tz (patch p) := rfl
 
-theorem readDoc_patch_date (tz : Bool) (u : Int) (o : Option Int) :
-    readDoc tz (patch (.date u o)) = .date (floorMs (dateUtc u o)) (if tz then some 0 else none) := by
-  cases tz <;> rfl
+theorem aggResult_aggPipeline_form (tz : Bool) (p : Val) :
+    AllDates (ReadForm tz) (aggResult tz (aggPipeline p)) :=
+  aggResult_form tz _ (patch_normal p)
 
-/-! ### expression comparisons between a stored field and a written datetime -/
+/-! ### comparisons inside the pipeline -/
 
-/-- the comparison of two milliseconds an expression operator stands for -/
+/-- the comparison of two integers an expression operator stands for -/
 def cmpMs (op : String) (m m' : Int) : Bool :=
   if op = "$eq" then m == m'
   else if op = "$ne" then m != m'
@@ -208,142 +244,217 @@ theorem holds_compare (c : CmpOp) (a b : Int) :
     have h3 : b ≤ a := by omega
     cases c <;> simp [CmpOp.holds, h, h1, h2, h3] <;> rfl
 
-/-- `bson_compare` of two datetimes of one read form: the order of their milliseconds -/
-theorem bsonCompare_read_dates (c : CmpOp) (tz : Bool) (x y : Int) :
-    bsonCompare c (.date (floorMs x) (if tz then some 0 else none))
-        (.date (floorMs y) (if tz then some 0 else none)) true
-      = .ok (c.holds (compare (x / 1000) (y / 1000))) := by
-  cases tz
-  · simp [bsonCompare, Val.tc, bsonCmp, leafCmp, Except.map, floorMs, compare_mul_1000]
-  · simp [bsonCompare, Val.tc, bsonCmp, leafCmp, Except.map, floorMs, dateUtc, compare_mul_1000]
+theorem bsonCompare_naive_dates (c : CmpOp) (x y : Int) :
+    bsonCompare c (.date x none) (.date y none) true = .ok (c.holds (compare x y)) := by
+  simp [bsonCompare, Val.tc, bsonCmp, leafCmp, Except.map]
 
-theorem pyEq_read_dates (tz : Bool) (x y : Int) :
-    pyEq (.date (floorMs x) (if tz then some 0 else none))
-        (.date (floorMs y) (if tz then some 0 else none)) = (x / 1000 == y / 1000) := by
-  rw [Bool.eq_iff_iff]
-  cases tz <;> simp [pyEq, dateUtc, floorMs_eq_iff]
-
-/-- **field against literal.** A field that holds the stored form of the datetime `a`, read by a
-    client with either `tz_aware` setting, compared by an expression operator with the datetime
-    `b` written in the pipeline: the answer is the comparison of the two milliseconds — never an
-    error, the same under both settings, whatever offsets and microseconds `a` and `b` were
-    written with. -/
-theorem compare_field_with_literal (tz : Bool) (op : String) (hop : op ∈ dateCmpOps)
-    (u : Int) (o : Option Int) (u' : Int) (o' : Option Int) :
-    Expr.compareOp op (readDoc tz (patch (.date u o))) (aggPipeline tz (.date u' o'))
-      = .ok (.bool (cmpMs op (msOf u o) (msOf u' o'))) := by
-  rw [readDoc_patch_date, aggPipeline_date]
+/-- **any two naive datetimes.** Inside the pipeline every datetime is naive — stored, fetched,
+    written, computed — and two naive datetimes are compared by an expression operator without
+    error, by their wall clocks (which are their UTC instants). -/
+theorem compare_naive_dates (op : String) (hop : op ∈ dateCmpOps) (x y : Int) :
+    Expr.compareOp op (.date x none) (.date y none) = .ok (.bool (cmpMs op x y)) := by
   simp only [dateCmpOps, List.mem_cons, List.mem_nil_iff, or_false] at hop
   rcases hop with rfl | rfl | rfl | rfl | rfl | rfl
-  · simp [Expr.compareOp, cmpMs, pyEq_read_dates, msOf]
-  · simp [Expr.compareOp, cmpMs, pyEq_read_dates, msOf, bne]
-  · simp [Expr.compareOp, cmpMs, bsonCompare_read_dates, holds_compare, Except.map, msOf]; rfl
-  · simp [Expr.compareOp, cmpMs, bsonCompare_read_dates, holds_compare, Except.map, msOf]; rfl
-  · simp [Expr.compareOp, cmpMs, bsonCompare_read_dates, holds_compare, Except.map, msOf]; rfl
-  · simp [Expr.compareOp, cmpMs, bsonCompare_read_dates, holds_compare, Except.map, msOf]; rfl
+  · simp [Expr.compareOp, cmpMs, pyEq]
+  · simp [Expr.compareOp, cmpMs, pyEq, bne]
+  · simp [Expr.compareOp, cmpMs, bsonCompare_naive_dates, holds_compare, Except.map]
+  · simp [Expr.compareOp, cmpMs, bsonCompare_naive_dates, holds_compare, Except.map]
+  · simp [Expr.compareOp, cmpMs, bsonCompare_naive_dates, holds_compare, Except.map]
+  · simp [Expr.compareOp, cmpMs, bsonCompare_naive_dates, holds_compare, Except.map]
+
+theorem cmpMs_mul_1000 (op : String) (a b : Int) : cmpMs op (a * 1000) (b * 1000) = cmpMs op a b := by
+  have e : (a * 1000 == b * 1000) = (a == b) := by
+    rw [Bool.eq_iff_iff]; simp; omega
+  have l : ∀ x y : Int, decide (x * 1000 < y * 1000) = decide (x < y) := by
+    intro x y; rw [Bool.eq_iff_iff]; simp
+  have le : ∀ x y : Int, decide (x * 1000 ≤ y * 1000) = decide (x ≤ y) := by
+    intro x y; rw [Bool.eq_iff_iff]; simp
+  simp only [cmpMs, e, l, le, bne]
+
+/-- **field against literal.** A field that holds the stored form of the datetime `a`, as the
+    pipeline reads it (`aggInput`: whatever `tz_aware`), compared by an expression operator with
+    the datetime `b` written in the pipeline: the answer is the comparison of the two
+    milliseconds — never an error, whatever offsets and microseconds `a` and `b` were written
+    with, and (there being no `tz` in the statement) the same for every client. -/
+theorem compare_field_with_literal (op : String) (hop : op ∈ dateCmpOps)
+    (u : Int) (o : Option Int) (u' : Int) (o' : Option Int) :
+    Expr.compareOp op (aggInput (patch (.date u o))) (aggPipeline (.date u' o'))
+      = .ok (.bool (cmpMs op (msOf u o) (msOf u' o'))) := by
+  simp only [aggInput, aggPipeline, patch]
+  rw [compare_naive_dates op hop]
+  simp only [floorMs, cmpMs_mul_1000, msOf]
 
 /-- the literal on the left -/
-theorem compare_literal_with_field (tz : Bool) (op : String) (hop : op ∈ dateCmpOps)
+theorem compare_literal_with_field (op : String) (hop : op ∈ dateCmpOps)
     (u : Int) (o : Option Int) (u' : Int) (o' : Option Int) :
-    Expr.compareOp op (aggPipeline tz (.date u' o')) (readDoc tz (patch (.date u o)))
-      = .ok (.bool (cmpMs op (msOf u' o') (msOf u o))) := by
-  have := compare_field_with_literal tz op hop u' o' u o
-  rwa [← aggPipeline_eq_readDoc, aggPipeline_eq_readDoc tz (.date u o)] at this
+    Expr.compareOp op (aggPipeline (.date u' o')) (aggInput (patch (.date u o)))
+      = .ok (.bool (cmpMs op (msOf u' o') (msOf u o))) :=
+  compare_field_with_literal op hop u' o' u o
+
+/-- **field against computed value.** The same field against a datetime the pipeline computed
+    (`$dateFromParts`, `$add` of a date and a number, …: a naive datetime `m` µs after the epoch):
+    no error, the comparison of the stored instant with `m`. -/
+theorem compare_field_with_computed (op : String) (hop : op ∈ dateCmpOps)
+    (u : Int) (o : Option Int) (m : Int) :
+    Expr.compareOp op (aggInput (patch (.date u o))) (.date m none)
+      = .ok (.bool (cmpMs op (floorMs (dateUtc u o)) m)) := by
+  simp only [aggInput, patch]
+  exact compare_naive_dates op hop _ _
+
+/-- … in milliseconds when the computed datetime has whole milliseconds (`$dateFromParts` after
+    8825a6b, `$add` of a stored date and a whole number) -/
+theorem compare_field_with_computed_ms (op : String) (hop : op ∈ dateCmpOps)
+    (u : Int) (o : Option Int) (ms : Int) :
+    Expr.compareOp op (aggInput (patch (.date u o))) (.date (ms * 1000) none)
+      = .ok (.bool (cmpMs op (msOf u o) ms)) := by
+  rw [compare_field_with_computed op hop]
+  simp only [floorMs, cmpMs_mul_1000, msOf]
+
+/-- a written datetime against a computed one -/
+theorem compare_literal_with_computed (op : String) (hop : op ∈ dateCmpOps)
+    (u : Int) (o : Option Int) (m : Int) :
+    Expr.compareOp op (aggPipeline (.date u o)) (.date m none)
+      = .ok (.bool (cmpMs op (floorMs (dateUtc u o)) m)) :=
+  compare_field_with_computed op hop u o m
 
 /-- equivalent literals compare alike against anything -/
-theorem compare_equivalent_literals (tz : Bool) (op : String) (x a b : Val)
-    (h : sameMillisecond a b) :
-    Expr.compareOp op x (aggPipeline tz a) = Expr.compareOp op x (aggPipeline tz b) := by
+theorem compare_equivalent_literals (op : String) (x a b : Val) (h : sameMillisecond a b) :
+    Expr.compareOp op x (aggPipeline a) = Expr.compareOp op x (aggPipeline b) := by
   cases a <;> cases b <;> simp only [sameMillisecond] at h
   rename_i u o u' o'
-  have : aggPipeline tz (.date u o) = aggPipeline tz (.date u' o') := by
-    rw [aggPipeline_date, aggPipeline_date]
-    have := (floorMs_eq_iff (dateUtc u o) (dateUtc u' o')).2 (by simpa [msOf] using h)
-    rw [this]
+  have : aggPipeline (.date u o) = aggPipeline (.date u' o') :=
+    (patch_instant u o u' o').2 h
   rw [this]
 
-/-! ### before the repair (the witness of the fixed finding `aggregate_literal_raw`) -/
+/-! ### before the repairs -/
 
-/-- the literal 2020-01-01T05:30:00.123456+05:30 handed on as written has neither read form -/
+/-- d1da933, the witness of the fixed finding `aggregate_literal_raw`: the literal
+    2020-01-01T05:30:00.123456+05:30 handed on as written had neither read form -/
 theorem unrepaired_literal_form (tz : Bool) :
     ¬ AllDates (ReadForm tz) (aggPipelineUnrepaired tz (.date 1577856600123456 (some 330))) := by
   cases tz <;> simp [aggPipelineUnrepaired, AllDates, ReadForm, Normal, AwareNormal]
 
 /-- under `tz_aware=True` a naive literal handed on as written could not be compared with a
-    field (TypeError: can't compare offset-naive and offset-aware datetimes) -/
+    field read through `find()` (TypeError: can't compare offset-naive and offset-aware
+    datetimes) -/
 theorem unrepaired_compare_raises :
-    Expr.compareOp "$gt" (readDoc true (patch (.date 1577836800123000 none)))
+    Expr.compareOp "$gt" (aggInputUnrepaired true (patch (.date 1577836800123000 none)))
         (aggPipelineUnrepaired true (.date 1577836800123999 none)) = .error .typeErr := by
-  simp [Expr.compareOp, readDoc, patch, makeAware, aggPipelineUnrepaired, bsonCompare, Val.tc,
+  simp [Expr.compareOp, aggInputUnrepaired, readDoc, patch, makeAware, aggPipelineUnrepaired,
+    bsonCompare, Val.tc, bsonCmp, leafCmp, Except.map]
+
+/-- under `tz_aware=False` `$eq` said "different" for the very millisecond stored -/
+theorem unrepaired_eq_wrong :
+    Expr.compareOp "$eq" (aggInputUnrepaired false (patch (.date 1577856600123456 (some 330))))
+        (aggPipelineUnrepaired false (.date 1577856600123456 (some 330))) = .ok (.bool false) := by
+  simp [Expr.compareOp, aggInputUnrepaired, readDoc, patch, aggPipelineUnrepaired, pyEq]
+
+/-- e05c961, the witness of the fixed finding `aggregate_computed_raw`: with the input read
+    through `find()`, under `tz_aware=True` the datetime `$dateFromParts` computes for
+    {year: 2020, millisecond: 123} (naive) could not be compared with the stored 2021-01-01 … -/
+theorem unrepaired_computed_compare_raises :
+    Expr.compareOp "$lt" (.date 1577836800123000 none)
+        (aggInputUnrepaired true (patch (.date 1609459200000000 none))) = .error .typeErr := by
+  simp [Expr.compareOp, aggInputUnrepaired, readDoc, patch, makeAware, bsonCompare, Val.tc,
     bsonCmp, leafCmp, Except.map]
 
-/-- under `tz_aware=False` an aware literal handed on as written raised likewise, and `$eq` said
-    "different" for the very millisecond stored -/
-theorem unrepaired_eq_wrong :
-    Expr.compareOp "$eq" (readDoc false (patch (.date 1577856600123456 (some 330))))
-        (aggPipelineUnrepaired false (.date 1577856600123456 (some 330))) = .ok (.bool false) := by
-  simp [Expr.compareOp, readDoc, patch, aggPipelineUnrepaired, pyEq]
+/-- … and, handed out as computed, did not have the read form of that client -/
+theorem unrepaired_computed_form :
+    ¬ AllDates (ReadForm true) (aggResultUnrepaired true (.date 1577836800123000 none)) := by
+  simp [aggResultUnrepaired, AllDates, ReadForm, AwareNormal]
 
 /-! ### `Collection.aggregate` with the client's setting -/
 
-/-- the collections as `find()` hands them to the pipeline under this setting -/
-def readDb (tz : Bool) (db : Pipe.Db) : Pipe.Db :=
-  ⟨db.colls.map (fun p => (p.1, p.2.map (readDoc tz)))⟩
-
-/-- `list(collection.aggregate(pipeline))` for a client with this `tz_aware` setting: the input is
-    read with `self.find()`, the pipeline is prepared (collection.py `aggregate`), the rest is
-    `process_pipeline` (MongoModel/Pipeline.lean) -/
+/-- `list(collection.aggregate(pipeline))` for a client with this `tz_aware` setting: the pipeline
+    is prepared, the input is the stored documents (`db`), the rest is `process_pipeline`
+    (MongoModel/Pipeline.lean), and every result document goes through `aggResult` -/
 def aggregateTz (tz : Bool) (db : Pipe.Db) (coll : String) (pipeline : Val) : R (List Val) :=
-  Pipe.aggregate (readDb tz db) coll (aggPipeline tz pipeline)
+  (Pipe.aggregate db coll (aggPipeline pipeline)).map (List.map (aggResult tz))
+
+theorem map_map_except {α β γ : Type} (f : α → β) (g : β → γ) (r : R α) :
+    (r.map f).map g = r.map (g ∘ f) := by
+  cases r <;> rfl
+
+/-- a `tz_aware=False` client gets what `process_pipeline` computes -/
+theorem aggregateTz_false (db : Pipe.Db) (coll : String) (p : Val) :
+    aggregateTz false db coll p = Pipe.aggregate db coll (patch p) := by
+  simp only [aggregateTz, aggPipeline]
+  have : List.map (aggResult false) = (id : List Val → List Val) := by
+    funext l
+    have : aggResult false = id := rfl
+    rw [this]; simp
+  rw [this]
+  cases Pipe.aggregate db coll (patch p) <;> rfl
+
+/-- **`tz_aware` changes nothing but the form of the results.** Same error or, document by
+    document, `makeAware` of what the other client gets: the same documents are selected, grouped,
+    joined, the same values computed. -/
+theorem aggregateTz_true (db : Pipe.Db) (coll : String) (p : Val) :
+    aggregateTz true db coll p = (aggregateTz false db coll p).map (List.map makeAware) := by
+  rw [aggregateTz_false]
+  rfl
+
+/-- every datetime a `tz_aware=True` client finds in the result of an aggregation, at any depth,
+    is aware UTC -/
+theorem aggregateTz_true_aware (db : Pipe.Db) (coll : String) (p : Val) (rs : List Val)
+    (h : aggregateTz true db coll p = .ok rs) : ∀ r ∈ rs, AllDates AwareUtc r := by
+  simp only [aggregateTz] at h
+  cases hp : Pipe.aggregate db coll (aggPipeline p) with
+  | error e => rw [hp] at h; cases h
+  | ok xs =>
+    rw [hp] at h
+    simp only [Except.map, Except.ok.injEq] at h
+    subst h
+    intro r hr
+    obtain ⟨x, _, rfl⟩ := List.mem_map.1 hr
+    exact aggResult_aware x
+
+/-- results whose datetimes the pipeline left or made normal come out in the read form of the
+    client -/
+theorem aggregateTz_form (tz : Bool) (db : Pipe.Db) (coll : String) (p : Val) (xs : List Val)
+    (h : Pipe.aggregate db coll (aggPipeline p) = .ok xs) (hn : ∀ x ∈ xs, AllDates Normal x) :
+    ∃ rs, aggregateTz tz db coll p = .ok rs ∧ ∀ r ∈ rs, AllDates (ReadForm tz) r := by
+  refine ⟨xs.map (aggResult tz), by simp [aggregateTz, h, Except.map], ?_⟩
+  intro r hr
+  obtain ⟨x, hx, rfl⟩ := List.mem_map.1 hr
+  exact aggResult_form tz x (hn x hx)
 
 /-- a datetime may be written anywhere in the pipeline — `$addFields`, `$project`, `$literal`,
     `$group` keys, accumulator arguments, `$bucket` boundaries, `$facet` sub-pipelines, expression
     operands, `$match` — in any equivalent way: the aggregation is the same -/
 theorem equivalent_pipeline_aggregates (tz : Bool) (db : Pipe.Db) (coll : String) (p q : Val)
     (h : SameMs p q) : aggregateTz tz db coll p = aggregateTz tz db coll q := by
-  simp only [aggregateTz, (aggPipeline_eq_iff_sameMs tz p q).2 h]
+  simp only [aggregateTz, (aggPipeline_eq_iff_sameMs p q).2 h]
 
 /-- the same for anything computed from the prepared pipeline -/
-theorem equivalent_pipeline_any {α : Type} (run : Val → α) (tz : Bool) (p q : Val)
-    (h : SameMs p q) : run (aggPipeline tz p) = run (aggPipeline tz q) := by
-  rw [(aggPipeline_eq_iff_sameMs tz p q).2 h]
+theorem equivalent_pipeline_any {α : Type} (run : Val → α) (p q : Val)
+    (h : SameMs p q) : run (aggPipeline p) = run (aggPipeline q) := by
+  rw [(aggPipeline_eq_iff_sameMs p q).2 h]
 
-/-! ### the `$match` stage under both settings -/
+/-! ### the `$match` stage inside `aggregate` -/
 
-theorem filterR_map_readDoc (tz : Bool) (f : Val) : ∀ docs : List Val, DateInv docs →
-    Pipe.filterR (fun d => filterApplies (patch (aggPipeline tz f)) (patch d))
-        (docs.map (readDoc tz))
-      = (Pipe.filterR (fun d => filterApplies (patch f) (patch d)) docs).map
-          (List.map (readDoc tz))
+/-- the stage normalises its filter again, which changes nothing: it is the stage on the filter
+    as written -/
+theorem matchStage_aggPipeline (f : Val) (docs : List Val) :
+    Pipe.matchStage (aggPipeline f) docs = Pipe.matchStage f docs := by
+  simp only [Pipe.matchStage, aggPipeline, patch_idem]
+
+theorem filterR_congr (p q : Val → R Bool) : ∀ docs : List Val, (∀ d ∈ docs, p d = q d) →
+    Pipe.filterR p docs = Pipe.filterR q docs
   | [], _ => rfl
   | d :: r, h => by
-    have hd : AllDates Normal d := h d (List.mem_cons_self)
-    have hr : DateInv r := fun x hx => h x (List.mem_cons_of_mem _ hx)
-    simp only [List.map_cons, Pipe.filterR, patch_aggPipeline, patch_readDoc tz d hd,
-      patch_fixes_normal d hd]
-    cases hp : filterApplies (patch f) d with
-    | error e => rfl
-    | ok b =>
-      have ih := filterR_map_readDoc tz f r hr
-      simp only [patch_aggPipeline] at ih
-      simp only [ih]
-      cases Pipe.filterR (fun d => filterApplies (patch f) (patch d)) r with
-      | error e => rfl
-      | ok ys => cases b <;> simp [Except.map]
+    simp only [Pipe.filterR, h d List.mem_cons_self,
+      filterR_congr p q r (fun x hx => h x (List.mem_cons_of_mem _ hx))]
 
-/-- **`$match` inside `aggregate`.** With the pipeline prepared and the documents read under
-    either setting, the stage selects the documents the plain query `patch f` selects from the
-    stored ones — and raises on the same. -/
-theorem matchStage_under_tz (tz : Bool) (f : Val) (docs : List Val) (h : DateInv docs) :
-    Pipe.matchStage (aggPipeline tz f) (docs.map (readDoc tz))
-      = (Pipe.matchStage f docs).map (List.map (readDoc tz)) := by
+/-- **`$match` inside `aggregate`.** On the stored documents (the input of the pipeline for every
+    client) the stage selects what `find` selects with the same filter. -/
+theorem matchStage_eq_find (f : Val) (docs : List Val) (h : DateInv docs) :
+    Pipe.matchStage (aggPipeline f) docs = Pipe.findDocs f docs := by
+  rw [matchStage_aggPipeline]
   cases docs with
-  | nil =>
-    simp only [List.map_nil, Pipe.matchStage, patch_aggPipeline]
-    cases filterApplies (patch f) (.doc []) <;> rfl
+  | nil => rfl
   | cons d r =>
-    have := filterR_map_readDoc tz f (d :: r) h
-    simpa [Pipe.matchStage] using this
+    simp only [Pipe.matchStage, Pipe.findDocs]
+    exact filterR_congr _ _ _ (fun x hx => by rw [patch_fixes_normal x (h x hx)])
 
 end MongoModel.Proofs.C18
-
